@@ -83,3 +83,27 @@ Fixpoint nodupb {A} (eqb : A -> A -> bool) (l : list A) : bool :=
   | [] => true
   | x :: r => negb (existsb (eqb x) r) && nodupb eqb r
   end.
+
+(* ---- the tables as the proofs see them ---- *)
+Definition un_names : list string := map (fun r : string * N * string * bool => let '(n, _, _, _) := r in n) unops.
+Definition bin_names : list string := map (fun r : string * N * string * nat * string => let '(n, _, _, _, _) := r in n) binops.
+Definition t_uop (o : string) : bool := existsb (String.eqb o) un_names.
+Definition t_bop (o : string) : bool := existsb (String.eqb o) bin_names.
+(* levels: expr_p3 .. expr_p12 are 3 .. 12, expr_p14 is 13, expr_p15 is 14 *)
+Definition t_blv (o : string) : nat := let l := t_bin_level o in if Nat.leb l 12 then l else Nat.pred l.
+
+Fixpoint nodupN (l : list N) : list N :=
+  match l with
+  | [] => []
+  | x :: r => if existsb (N.eqb x) r then nodupN r else x :: nodupN r
+  end.
+Definition t_precs : list N :=
+  nodupN (map snd misc_prec ++ map (fun r : string * N * string * bool => let '(_, p, _, _) := r in p) unops
+          ++ map (fun r : string * N * string * nat * string => let '(_, p, _, _, _) := r in p) binops).
+(* the level a precedence stands for: the number of distinct precedences below it *)
+Definition t_lvN (p : N) : nat := List.length (filter (fun q => N.ltb q p) t_precs).
+
+Definition t_requires_paren := requires_paren t_assoc.
+Definition t_side (kind : string) (i : nat) : side := side_at t_sides kind i.
+Definition ctx_okb (outer : N) (s : side) (c : nat) : bool :=
+  forallb (fun p => Bool.eqb (t_requires_paren p outer s) (negb (Nat.leb (t_lvN p) c))) t_precs.
